@@ -286,11 +286,39 @@ class Eval(object):
         self._ipdom = None
         self._visited = set()
         self._phi_override = {}
+        self._acyclic = self._cfg_is_acyclic()
+        self._revisits = 0
         last = self._exec(self.fn['blocks'][0]['id'], None, None)
         if last is not None or not getattr(self, '_returned', False):
             raise NotStraightLine('function does not end in a single return')
         T.CUR_SRC[0] = None
         return self
+
+    def _cfg_is_acyclic(self):
+        from . import cfg as CFG
+        try:
+            succ = CFG.successors(self.fn)
+        except ValueError:
+            return False
+        state = {}
+        stack = [(self.fn['blocks'][0]['id'], iter(succ[self.fn['blocks'][0]['id']]))]
+        state[self.fn['blocks'][0]['id']] = 1
+        while stack:
+            node, it = stack[-1]
+            adv = False
+            for v in it:
+                st = state.get(v, 0)
+                if st == 1:
+                    return False
+                if st == 0:
+                    state[v] = 1
+                    stack.append((v, iter(succ[v])))
+                    adv = True
+                    break
+            if not adv:
+                state[node] = 2
+                stack.pop()
+        return True
 
     def _post_dominators(self):
         from . import cfg as CFG
@@ -353,7 +381,14 @@ class Eval(object):
         while True:
             if cur['id'] == stop:
                 return prev
-            if cur['id'] in self._visited:
+            if cur['id'] in self._visited and self._acyclic and self.oracle is None:
+                # loop-free CFG that is a DAG, not a tree: a block shared by several arms (the common `return lhs + rhs`
+                # of the branchy scalar sadd/ssub) is simply evaluated again along the other path -- evaluation is a
+                # function of the path, and _if_convert merges the arms at the post-dominator.  Bounded (tiny functions).
+                self._revisits += 1
+                if self._revisits > 4096:
+                    raise NotStraightLine('block %s: too many paths through a shared arm' % cur['name'])
+            elif cur['id'] in self._visited:
                 # with an oracle that decides every branch the path is a straight line even through a loop: the loop is
                 # unrolled along it (max_visits bounds the unrolling)
                 self._visits = getattr(self, '_visits', {})
